@@ -54,10 +54,16 @@ func (f *Rem) Call(s *slip.Scope, args slip.List, depth int) (result slip.Object
 	switch num := n.(type) {
 	case slip.Fixnum:
 		div := int64(d.(slip.Fixnum))
+		if div == 0 {
+			slip.ArithmeticPanic(s, depth, slip.Symbol("/"), args, "divide by zero")
+		}
 		m := int64(num) % div
 		result = slip.Fixnum(m)
 	case *slip.Bignum:
 		div := (*big.Int)(d.(*slip.Bignum))
+		if div.Sign() == 0 {
+			slip.ArithmeticPanic(s, depth, slip.Symbol("/"), args, "divide by zero")
+		}
 		var z big.Int
 		_ = z.Rem((*big.Int)(num), div)
 		result = (*slip.Bignum)(&z)
